@@ -100,13 +100,17 @@ def const_of(t):
 
 
 def check_is_modifier(mod, rep, R):
+    from . import boolfn as bf
     fn = mod.get('_is_modifier')
     p = fn.args.args[0].arg
-    ps = SymExec(fn).run()
-    want = sorted([show(A(N(p), 'is_functor')), show(('cmp', '==', A(N(p), 'left'), A(N(p), 'right')))])
-    got = sorted(show(x) for x in flat_and(ps[0][0].ret)) if len(ps) == 1 and ps[0][0].ret else None
-    rep.check(got == want, R, '%s:%s _is_modifier' % (mod.rel, fn.lineno), mod.rel + ':_is_modifier',
-              '_is_modifier(z) is z.is_functor and z.left == z.right', '_is_modifier is %s' % got)
+    shape = (('truthy', A(N(p), 'is_functor')), ('truthy', A(N(p), 'is_atomic')))
+    cons = lambda sigma: not (shape[0] in sigma and shape[1] in sigma) or sigma[shape[0]] != sigma[shape[1]]
+    is_fun = bf.T(A(N(p), 'is_functor'))
+    ok, detail = bf.matches(fn, bf.AND(is_fun, bf.T(('cmp', '==', A(N(p), 'left'), A(N(p), 'right')))), cons)
+    if not ok:
+        ok, detail = bf.matches(fn, bf.AND(bf.NOT(bf.T(A(N(p), 'is_atomic'))), bf.T(('cmp', '==', A(N(p), 'left'), A(N(p), 'right')))), cons)
+    rep.check(ok, R, '%s:%s _is_modifier' % (mod.rel, fn.lineno), mod.rel + ':_is_modifier',
+              '_is_modifier(z) is z.is_functor and z.left == z.right (%s)' % detail, '_is_modifier: %s' % detail)
 
 
 def check_combinator(lang, mod, name, fn, rep, R):
